@@ -38,7 +38,9 @@ type explorer struct {
 	seq     int
 	stop    func() bool
 	capped  bool
+	tainted bool        // the live database no longer matches the model (after a reported violation)
 	onExec  func(*inst) // told which instance is about to execute operations
+	init    []event     // committed before the exploration starts (not counted in the depth)
 
 	memo map[string]int // committed-state digest -> largest remaining depth expanded
 
@@ -66,6 +68,12 @@ type recorded struct {
 
 func (e *explorer) record(in *inst) {
 	for _, f := range in.fails {
+		// a rolled-back or failed transaction that left a trace (or a reopen that lost something)
+		// has changed the committed state of the live database behind the model's back: nothing
+		// evaluated on it afterwards is meaningful, the shard stops (reported, exhaustive=false)
+		if strings.Contains(f.sig, "|after-rollback") || strings.Contains(f.sig, "|after-failed-update") || strings.Contains(f.sig, "|after-reopen") || strings.Contains(f.sig, "|after-commit") {
+			e.capped, e.tainted = true, true
+		}
 		if r, ok := e.fails[f.sig]; ok {
 			r.Count++
 			continue
@@ -88,7 +96,7 @@ func (e *explorer) fresh(prefix []event) *inst {
 	e.executions++
 	in := newInst(filepath.Join(e.scratch, fmt.Sprintf("d%d", e.seq)), e.cfg)
 	in.quiet = true
-	for _, ev := range prefix {
+	for _, ev := range append(append([]event{}, e.init...), prefix...) {
 		if ev.Reopen {
 			in.reopen()
 			continue
@@ -149,7 +157,7 @@ func (e *explorer) exploreState(in *inst, prefix []event, used int) {
 		if e.onExec != nil {
 			e.onExec(in2)
 		}
-		in2.hist = flat(prefix)
+		in2.hist = e.flat(prefix)
 		in2.begin(true)
 		in2.lite = true
 		for _, op := range body {
@@ -173,7 +181,7 @@ func (e *explorer) exploreState(in *inst, prefix []event, used int) {
 		}
 	}
 	if rem >= 1 && !(len(prefix) > 0 && prefix[len(prefix)-1].Reopen) && (!top || e.shard == 0) {
-		in.hist = flat(prefix)
+		in.hist = e.flat(prefix)
 		in.reopen()
 		e.reopens++
 		e.transitions++
@@ -181,6 +189,11 @@ func (e *explorer) exploreState(in *inst, prefix []event, used int) {
 		np := append(append([]event{}, prefix...), event{Reopen: true})
 		e.exploreState(in, np, used+1)
 	}
+}
+
+// flat renders the initial events and the committed prefix as a replayable operation list.
+func (e *explorer) flat(prefix []event) []string {
+	return append(flat(e.init), flat(prefix)...)
 }
 
 func flat(prefix []event) []string {
@@ -201,7 +214,7 @@ func flat(prefix []event) []string {
 // the current committed state, up to rem-1 operations, and returns the bodies whose commit has to
 // be executed (one per distinct pending overlay).
 func (e *explorer) inner(in *inst, prefix []event, rem int, rw bool, top bool) [][]string {
-	base := flat(prefix)
+	base := e.flat(prefix)
 	root := txNode{tm: txModel{writable: rw, w: in.m}}
 	seen := map[string]bool{root.tm.digest(): true}
 	overlays := map[string]bool{}
@@ -296,19 +309,24 @@ func (e *explorer) inner(in *inst, prefix []event, rem int, rw bool, top bool) [
 				if len(e.samples) < 4 && len(body) == rem-1 {
 					e.samples = append(e.samples, append([]string{}, in.hist...))
 				}
+				e.record(in)
 				if canEnd {
 					in.end("rollback") // leaves no trace
 					e.rollbacks++
 					e.transitions++
-					if rw && op[0] != 'c' {
+					e.record(in)
+					if rw && op[0] != 'c' && !e.tainted {
 						in.updErr(body) // failed managed transaction leaves no trace
 						e.failedUpd++
 						e.transitions++
+						e.record(in)
 					}
 				} else {
 					in.abort()
 				}
-				e.record(in)
+				if e.tainted {
+					return commits
+				}
 			}
 		}
 		frontier = next
